@@ -1128,17 +1128,22 @@ class MqttTransport(_FullTransport, _MqttTransportAbstractor):
 
         try:
             payload = json.loads(msg.payload)
-        except json.JSONDecodeError:
+        except ValueError:  # JSONDecodeError, or UnicodeDecodeError (payload is bytes)
             _LOGGER.warning("%s < Cant decode JSON (ignoring)", msg.payload)
             return
 
-        # HACK: hotfix for converting RAMSES_ESP dtm into local/naive dtm
-        dtm = dt.fromisoformat(payload["ts"])
-        if dtm.tzinfo is not None:
-            dtm = dtm.astimezone().replace(tzinfo=None)
-        # FIXME: convert all dt early, and convert to aware, i.e. dt.now().astimezone()
+        try:
+            # HACK: hotfix for converting RAMSES_ESP dtm into local/naive dtm
+            dtm = dt.fromisoformat(payload["ts"])
+            if dtm.tzinfo is not None:
+                dtm = dtm.astimezone().replace(tzinfo=None)
+            # FIXME: convert all dt early, and convert to aware, i.e. dt.now().astimezone()
+            frame = _normalise(payload["msg"])
+        except (LookupError, OverflowError, TypeError, ValueError) as err:
+            _LOGGER.warning("%s < Cant process JSON (ignoring): %s", msg.payload, err)
+            return
 
-        self._frame_read(dtm.isoformat(), _normalise(payload["msg"]))
+        self._frame_read(dtm.isoformat(), frame)
 
     async def write_frame(self, frame: str, disable_tx_limits: bool = False) -> None:
         """Transmit a frame via the underlying handler (e.g. serial port, MQTT).
